@@ -367,4 +367,31 @@ class Texts(object):
         return 'ok', vs, 1
 
 
-FAMILIES = [Sequences(), CrossModule(), Identifiers(), TypeChains(), Texts()]
+
+class AccessWords(object):
+    name = 'access-words'
+    describe = ('a scalar and a table column declared with every access word of SMIv1 and SMIv2 (read-only, read-write, write-only, '
+                'not-accessible, accessible-for-notify, read-create) under the ACCESS and the MAX-ACCESS keyword: the access the '
+                'loaded pysnmp object reports is the one the JSON document reports')
+    WORDS = ['read-only', 'read-write', 'write-only', 'not-accessible', 'accessible-for-notify', 'read-create']
+
+    def blocks(self, tier):
+        return [{'kw': k} for k in ('MAX-ACCESS', 'ACCESS')]
+
+    def cases(self, block, tier):
+        for w in self.WORDS:
+            yield {'kw': block['kw'], 'w': w}
+
+    def run_case(self, case):
+        acc = (case['kw'], case['w'])
+        decls = C03.context() + [
+            dict(C03ot('subjectScalar', ('simple', 'Integer32'), ['ctxRoot', 40]), access=acc),
+            dict(C03ot('aTable', ('seqof', 'AEntry'), ['ctxRoot', 41]), access=(case['kw'], 'not-accessible')),
+            dict(C03ot('aEntry', ('ref', 'AEntry'), ['aTable', 1], index=[(0, 'aIdx')]), access=(case['kw'], 'not-accessible')),
+            {'k': 'type', 'name': 'AEntry', 'syntax': ('seq', [('aIdx', 'Integer32'), ('subjectColumn', 'Integer32')])},
+            dict(C03ot('aIdx', ('simple', 'Integer32'), ['aEntry', 1]), access=(case['kw'], 'not-accessible')),
+            dict(C03ot('subjectColumn', ('simple', 'Integer32'), ['aEntry', 2]), access=acc)]
+        mod = refir.finish_module({'name': 'TEST-MIB', 'decls': decls})
+        return check_set([mod], ['TEST-MIB'], 'C04|access|%s|%s' % (case['kw'], case['w']), real=False)
+
+FAMILIES = [Sequences(), CrossModule(), Identifiers(), TypeChains(), Texts(), AccessWords()]
